@@ -52,6 +52,8 @@ type ChainCfg struct {
 	Repeat           bool // run the implementation several times per case (map iteration order)
 	Degenerate       bool // C15: odd layouts (empty rules, missing keys)
 	ParamRules       bool // C10: product rules carry {PAT} markers
+	SubInspPct       int  // chance (percent) that a sublayout carries an inspection of its own (plain entry only)
+	OddSummaryPct    int  // chance (percent) that the requested summary name carries leading/trailing white space etc.
 }
 
 type Level struct {
@@ -69,6 +71,14 @@ type chainGen struct {
 	w   *World
 	cfg *ChainCfg
 	seq int
+	// oneSub: this chain has at most ONE sublayout, and that one carries an inspection of its own.
+	// (The library resolves the sublayouts of a layout in Go map order; with two of them, one
+	// failing and one with an inspection, WHICH commands ran before the rejection is not determined
+	// - and no property says it should be. A first version of this dimension alarmed C01 on the
+	// unchanged tree for exactly that reason.)
+	oneSub  bool
+	subMade bool
+	sysTrust bool // a certificate chain that ends in the machine's trust store was used
 }
 
 var funcKeys = []int{4, 5, 6, 7, 2, 3, 0, 1} // functionary keys by preference (Ed25519 first: cheap)
@@ -211,7 +221,7 @@ func (g *chainGen) buildLevel(depth int, initial Files, signers []*TestKey, name
 		certOnly := 0
 		if cfg.CertSteps && top && rng.Chance(60) {
 			certLeafKey = pool()[3]
-			certChain = rng.Pick([]string{"direct", "inter-layout", "inter-caller", "expired-leaf", "foreign-root", "missing-inter", "direct", "inter-layout", "foreign-inter-caller", "foreign-root-caller", "expired-inter-old-leaf"})
+			certChain = rng.Pick([]string{"direct", "inter-layout", "inter-caller", "expired-leaf", "foreign-root", "missing-inter", "direct", "inter-layout", "foreign-inter-caller", "foreign-root-caller", "expired-inter-old-leaf", "system-trusted-no-roots"})
 			if cfg.CertChainBias != "" && rng.Chance(60) {
 				certChain = cfg.CertChainBias
 			}
@@ -220,6 +230,9 @@ func (g *chainGen) buildLevel(depth int, initial Files, signers []*TestKey, name
 				certChain = rng.Pick([]string{"direct", "inter-layout", "inter-layout", "inter-caller"})
 			}
 			cs := setupChain(certChain)
+			if certChain == "system-trusted-no-roots" {
+				g.sysTrust = true
+			}
 			if len(rootIDs) == 0 {
 				for k, r := range cs.LayoutRoots {
 					rootIDs = append(rootIDs, rootID(k))
@@ -272,8 +285,10 @@ func (g *chainGen) buildLevel(depth int, initial Files, signers []*TestKey, name
 			st = st.Set("expected_products", []any{[]any{"ALLOW", "{PAT}"}, []any{"DISALLOW", "*"}})
 			st = st.Set("expected_command", []any{"build", "{PAT}", "{UNUSED}"})
 		}
-		if cfg.Degenerate && rng.Chance(25) {
-			st = st.Set("expected_products", []any{[]any{[]any{}}, []any{nil}, []any{[]any{"ALLOW"}}}[rng.Intn(3)])
+		if cfg.Degenerate && rng.Chance(30) {
+			// malformed rules of every shape: empty, null, a bare keyword (either letter case), MATCH
+			// forms cut off after every token, surplus tokens (seeded change c15-bare-match-rule-panics)
+			st = st.Set(rng.Pick([]string{"expected_products", "expected_materials"}), degenerateRules(rng))
 		}
 		steps = append(steps, st)
 
@@ -346,7 +361,8 @@ func (g *chainGen) buildLevel(depth int, initial Files, signers []*TestKey, name
 				}
 				lv.Feat = append(lv.Feat, "differ")
 			}
-			if depth > 0 && !sublayoutDone && rng.Chance(70) {
+			if depth > 0 && !sublayoutDone && !(g.oneSub && g.subMade) && rng.Chance(70) {
+				g.subMade = true
 				// the evidence of this functionary is a sublayout
 				sublayoutDone = true
 				g.seq++
@@ -408,6 +424,34 @@ func (g *chainGen) buildLevel(depth int, initial Files, signers []*TestKey, name
 				put(shortID(foreign.ID), g.wrapSign(linkTree(name, mats, oddProds, cmd), cfg.LinkDSSE, []sigSpec{{key: foreign}}))
 			case "other-step-key":
 				put(shortID(other.ID), g.wrapSign(linkTree(name, mats, oddProds, cmd), cfg.LinkDSSE, []sigSpec{{key: other}}))
+			case "sublayout-unauthorized":
+				// a (valid) SUBLAYOUT, with its link directory, signed by a key the layout defines but
+				// does not list for THIS step: it is no evidence for the step and is never followed
+				// (seeded change c08-sublayout-signer-known-not-authorized)
+				var cand *TestKey
+				for _, idx := range funcKeys {
+					k := pool()[idx]
+					listed := false
+					for _, f := range fs {
+						if f.ID == k.ID {
+							listed = true
+						}
+					}
+					if !listed && (cand == nil || rng.Chance(40)) {
+						cand = k
+					}
+				}
+				if cand == nil || certOnly > 0 {
+					continue
+				}
+				if _, taken := files[name+"."+shortID(cand.ID)+".link"]; taken {
+					continue
+				}
+				addKey(cand)
+				g.seq++
+				sub := g.buildLevel(0, mats, []*TestKey{cand}, fmt.Sprintf("u%d", g.seq), false)
+				put(shortID(cand.ID), sub.LayoutFile)
+				subs[name+"."+shortID(cand.ID)] = sub.Dir
 			case "earlier-step-key":
 				// a functionary of an EARLIER step of this layout (listed and defined there) signs a
 				// link for this step, for which it is not listed: authorization is per step
@@ -554,9 +598,23 @@ func (g *chainGen) buildLevel(depth int, initial Files, signers []*TestKey, name
 	lv.Last = cur
 	// inspections
 	insps := []any{}
-	if top {
-		for k, kind := range cfg.Inspections {
+	inspKinds := cfg.Inspections
+	if !top {
+		inspKinds = nil
+		if g.oneSub {
+			// a SUBLAYOUT with an inspection of its own: its command runs while the parent's step is
+			// being resolved, i.e. before the parent's own rules and inspections — and never when the
+			// parent was rejected before that (seeded change c01-root-signature-collected-after-sublayouts)
+			inspKinds = []string{rng.Pick([]string{"create", "noop"})}
+			lv.Feat = append(lv.Feat, "sub-inspection")
+		}
+	}
+	if top || len(inspKinds) > 0 {
+		for k, kind := range inspKinds {
 			iname := fmt.Sprintf("insp%d", k)
+			if !top {
+				iname = "sinsp-" + nameSuffix
+			}
 			if cfg.InspNameClashPct > 0 && len(stepNames) > 0 && rng.Chance(cfg.InspNameClashPct) {
 				// an inspection that carries the name of the first or last STEP: the step's agreed link,
 				// not the inspection's, is what step rules and the summary see
@@ -595,8 +653,12 @@ func (g *chainGen) buildLevel(depth int, initial Files, signers []*TestKey, name
 					lv.Feat = append(lv.Feat, "require-last")
 				}
 			}
+			prodRules := g.rules("", rng.Intn(3), false, cur)
+			if !top {
+				matRules, prodRules = []any{[]any{"ALLOW", "*"}}, []any{[]any{"ALLOW", "*"}}
+			}
 			insps = append(insps, O("_type", "inspection", "run", argvAny(c.Argv), "name", iname,
-				"expected_materials", matRules, "expected_products", g.rules("", rng.Intn(3), false, cur)))
+				"expected_materials", matRules, "expected_products", prodRules))
 		}
 	}
 	expires := cfg.Expiry
@@ -725,6 +787,35 @@ func toIntotoKey(m map[string]any) intoto.Key {
 
 var origWD string
 
+// degenerateRules: one malformed rule (sometimes followed by a well-formed one).
+func degenerateRules(rng *Rng) []any {
+	kw := rng.Pick([]string{"MATCH", "match", "Match", "MATCH", "CREATE", "DELETE", "MODIFY", "ALLOW", "DISALLOW", "REQUIRE", "require", "allow", "", "FROM"})
+	full := []any{kw, "*", "IN", "src", "WITH", rng.Pick([]string{"PRODUCTS", "MATERIALS", "products"}), "IN", "dst", "FROM", "step0", "x", "y"}
+	short := []any{kw, "*", "WITH", "PRODUCTS", "FROM", "step0", "x"}
+	var r []any
+	switch rng.Intn(7) {
+	case 0:
+		r = []any{[]any{}}
+	case 1:
+		r = []any{nil}
+	case 2, 3:
+		r = []any{[]any{kw}} // the bare keyword
+	case 4:
+		r = []any{append([]any{}, full[:1+rng.Intn(len(full))]...)}
+	case 5:
+		r = []any{append([]any{}, short[:1+rng.Intn(len(short))]...)}
+	default:
+		r = []any{[]any{kw, "*", "extra"}}
+	}
+	if rng.Chance(30) {
+		r = append(r, []any{"ALLOW", "*"})
+	}
+	if rng.Chance(20) {
+		r = append([]any{[]any{"ALLOW", "*"}}, r...)
+	}
+	return r
+}
+
 type needsCallerFix struct {
 	info   map[string]any
 	caller []*CA
@@ -801,6 +892,7 @@ func materialiseProducts(a map[string]any) (layoutPath, linkDir, prodDir, marker
 }
 
 func verifyOnce(a map[string]any, md intoto.Metadata, keys map[string]intoto.Key, linkDir, prodDir string) (res map[string]any) {
+	prepareTrust(a)
 	defer func() {
 		if r := recover(); r != nil {
 			res = map[string]any{"res": "panic"}
@@ -904,6 +996,7 @@ func init() {
 func genChainCase(r *Runner, rng *Rng, cfg *ChainCfg) Case {
 	w := newWorld()
 	g := &chainGen{rng: rng, s: &Signer{drv: r.Drv, w: w}, w: w, cfg: cfg}
+	g.oneSub = cfg.SubInspPct > 0 && cfg.Entry != "withdir" && cfg.Depth > 0 && rng.Chance(cfg.SubInspPct)
 	tag := fmt.Sprintf("%s-%d", r.Prop, r.Shard)
 	cfg.Marker = "/tmp/verif-mk-" + tag
 	cfg.RunDir = "/tmp/verif-rd-" + tag
@@ -1097,11 +1190,20 @@ func genChainCase(r *Runner, rng *Rng, cfg *ChainCfg) Case {
 	if vkeys == nil {
 		vkeys = []any{}
 	}
+	summaryName := "root-summary"
+	if cfg.OddSummaryPct > 0 && rng.Chance(cfg.OddSummaryPct) {
+		// the summary carries the requested name EXACTLY (seeded change c05-summary-name-trimmed)
+		summaryName = rng.Pick([]string{" sub", "sub ", "sub\n", "\tsub", " ", "  a  b  ", "\n", "sub\r\n", "Sub", "é ", "a/b", "."})
+		feat = append(feat, "odd-summary-name")
+	}
 	args := map[string]any{
-		"layout_text": WriteJ(layoutFile, nil, false), "keys": vkeys, "dir": lv.Dir, "step_name": "root-summary",
+		"layout_text": WriteJ(layoutFile, nil, false), "keys": vkeys, "dir": lv.Dir, "step_name": summaryName,
 		"params": params, "caller_inters": lv.Dir["caller_inters"], "entry": cfg.Entry, "rundir_state": cfg.RunDirState,
 		"rundir": cfg.RunDir, "marker": cfg.Marker, "fs": fs.contents(), "fs_digests": fs.digests(), "line_norm": false,
 		"world": w.JSON(), "now_ns": int64(0),
+	}
+	if g.sysTrust {
+		args["system_trust"] = getCA("sysroot", nil, "ok").PEM // for replays in another process
 	}
 	if cfg.Alter != "" && cfg.Prime {
 		// the AUTHENTIC layout is verified first in the same process (result not compared here);
